@@ -51,6 +51,9 @@ def _spectrum(case):
         # square but not Hermitian (as produced by the one-sided, exponentially windowed correlogram)
         G = rng.normal(size=(Sy.shape[1], Sy.shape[1])) * 0.3 + np.eye(Sy.shape[1])
         Sy = np.einsum("ijk,jl->ilk", Sy, G + 0.2j * rng.normal(size=G.shape))
+    if case.get("deadband"):
+        # a record low-pass filtered before the analysis: the upper lines lie 170 dB and more below the pass band
+        Sy = Sy * np.where(freq > 0.8 * freq[-1], 1e-18, 1.0)[None, None, :]
     return freq, Sy * case.get("level", 1.0), f0
 
 
@@ -66,7 +69,7 @@ def pick_case(draw):
     return {"n": n, "half": half, "nref": draw(st.integers(2, n)) if half else n, "nf": nf, "fs": fs, "nmodes": draw(st.integers(0, 4)),
             "complex": draw(st.booleans()), "floor": draw(st.sampled_from([1e-1, 1e-3, 1e-6])), "seed": draw(st.integers(0, 2**32 - 1)),
             "sel": sel, "DFm": draw(st.one_of(st.floats(1.0, 6.0), st.floats(1.0, 60.0))), "nonherm": draw(st.integers(0, 3)) == 0,
-            "level": draw(st.sampled_from([1.0, 1.0, 1e-10, 1e8, 1e-14]))}  # overall level of the spectra (units / signal amplitude)
+            "level": draw(st.sampled_from([1.0, 1.0, 1e-10, 1e8, 1e-14])), "deadband": draw(st.integers(0, 3)) == 0}  # overall level of the spectra (units / signal amplitude)
 
 
 def _oracle_pick(j, tag, freq, Sy, sel, DF, Fn, Phi):
@@ -112,7 +115,21 @@ def judge_pick(case):
     Sval, Svec = out
     sel = [float(min(max(s, 0.0), freq[-1])) for s in case["sel"]]
     Sval0, Svec0 = np.array(Sval, copy=True), np.array(Svec, copy=True)
-    res = sut(fdd.FDD_mpe, Sval, Svec, freq.copy(), list(sel), DF=DF)
+    # the selected frequencies in any of their equivalent forms (a pandas Series keeps the labels of the table it was cut from)
+    form = ["list", "tuple", "array", "series", "series-permuted-labels"][case["seed"] % 5]
+    if form == "tuple":
+        sel_arg = tuple(sel)
+    elif form == "array":
+        sel_arg = np.array(sel)
+    elif form.startswith("series"):
+        import pandas as pd
+
+        idx = list(range(len(sel)))
+        sel_arg = pd.Series(list(sel), index=idx[::-1] if form.endswith("labels") else idx)
+    else:
+        sel_arg = list(sel)
+    j.tag("sel_freq:" + form)
+    res = sut(fdd.FDD_mpe, Sval, Svec, freq.copy(), sel_arg, DF=DF)
     if not j.check(not raised(res), "mpe-raises", lambda: f"{res!r}"):
         return j
     j.check(np.array_equal(Sval, Sval0) and np.array_equal(Svec, Svec0), "mpe-mutates-decomposition", "FDD_mpe modified the singular values / vectors it was given")
